@@ -160,9 +160,9 @@ class Rel:
 
         class G:
             pass
-        pprops = dict(children=orm.relationship(C, lazy=LAZYARG[children], order_by=self.c.c.id, back_populates="parent"))
+        pprops = dict(children=orm.relationship(C, lazy=LAZYARG[children], order_by=self.c.c.id.desc(), back_populates="parent"))
         cprops = dict(parent=orm.relationship(P, lazy=LAZYARG[parent], back_populates="children"),
-                      gs=orm.relationship(G, lazy=LAZYARG[gs], order_by=self.g.c.id, back_populates="child"))
+                      gs=orm.relationship(G, lazy=LAZYARG[gs], order_by=(self.g.c.z, self.g.c.id), back_populates="child"))
         gprops = dict(child=orm.relationship(C, back_populates="gs"))
         if deferred:
             pprops["x"] = orm.deferred(self.p.c.x)
